@@ -366,6 +366,10 @@ class GatewayMonitor:
         elif n != exp.callbacks:
             viols.append(self.v("callback-count", exp.kind, f"{n} callback(s) for {short(ev[1])!r}, expected {exp.callbacks}"))
             return
+        if "dirty" in self.clauses and exp.callbacks == 1 and world.gw.tasks.persistence is not None:
+            self.stats["dirty_flag_checked"] += 1
+            if not world.gw.tasks.persistence.need_save:
+                viols.append(self.v("state-change-not-marked-unsaved", exp.kind, f"{short(ev[1])!r} changed the state (callback {'raised' if world.cb_kind == 'raise' else 'ran'}) but the state is not marked as needing a save"))
         if n and exp.cb_fields is not None:
             self.stats["callbacks_checked"] += 1
             fields, view = obs.callbacks[0]
